@@ -4,8 +4,13 @@ package dtls
 //symgo:outside option validation (each With* option's own checks), the cipher-suite and signature-scheme parsers (zzSuiteParse, zzSigSchemePick), the version range (zzVersionPick / version_conn.go)
 
 import (
+	"crypto/tls"
+
 	dtlsconfig "github.com/pion/dtls/v3/internal/config"
 	"github.com/pion/dtls/v3/pkg/crypto/elliptic"
+	dtlshash "github.com/pion/dtls/v3/pkg/crypto/hash"
+	"github.com/pion/dtls/v3/pkg/crypto/signature"
+	"github.com/pion/dtls/v3/pkg/crypto/signaturehash"
 )
 
 // From the application's configuration to the policy the negotiation code reads. For an ARBITRARY extended
@@ -99,3 +104,49 @@ type zzNoStore struct{}
 func (zzNoStore) Set([]byte, Session) error     { return nil }
 func (zzNoStore) Get([]byte) (Session, error) { return Session{}, nil }
 func (zzNoStore) Del([]byte) error              { return nil }
+
+// Signature-scheme policy wiring. The application lists ecdsa_sha1 (0x0203, an insecure hash) and
+// ecdsa_secp256r1_sha256 (0x0403) as its signature schemes and, optionally, the same two as its certificate
+// signature schemes; InsecureHashes, InsecureSkipVerify and InsecureSkipVerifyHello are set in every combination.
+// Proved: the SHA-1 scheme is part of the endpoint's effective handshake-signature policy (LocalSignatureSchemes)
+// and certificate-signature policy (LocalCertSignatureSchemes) exactly when the application set InsecureHashes -
+// no other "insecure" switch widens the policy - and the SHA-256 scheme always is; without a certificate-scheme
+// list the certificate policy stays empty (the fallback to the handshake list is taken where it is used:
+// certscheme13.go, sigflight.go).
+//
+//symgo:entry covers=sha1_kept_with_insecure_hashes,sha1_dropped_without
+func zzCfgSignatureSchemeWiring() {
+	cfg := &dtlsConfig{}
+	cfg.SignatureSchemes = []tls.SignatureScheme{tls.ECDSAWithSHA1, tls.ECDSAWithP256AndSHA256}
+	withCertList := zzsymChoice("cert_scheme_list", 2) == 1
+	if withCertList {
+		cfg.CertificateSignatureSchemes = []tls.SignatureScheme{tls.ECDSAWithSHA1, tls.ECDSAWithP256AndSHA256}
+	}
+	cfg.InsecureHashes = zzsymChoice("insecure_hashes", 2) == 1
+	cfg.InsecureSkipVerify = zzsymChoice("insecure_skip_verify", 2) == 1
+	cfg.InsecureSkipVerifyHello = zzsymChoice("insecure_skip_verify_hello", 2) == 1
+	values, err := newConnConfigValues(cfg)
+	zzsymAssert(err == nil, "wiring_config_values_ok")
+	hc := newHandshakeConfig(cfg, values, nil)
+	has := func(list []signaturehash.Algorithm, h dtlshash.Algorithm) bool {
+		for _, a := range list {
+			if a.Hash == h && a.Signature == signature.ECDSA {
+				return true
+			}
+		}
+		return false
+	}
+	zzsymAssert(has(hc.LocalSignatureSchemes, dtlshash.SHA256), "wiring_secure_scheme_kept")
+	zzsymAssert(has(hc.LocalSignatureSchemes, dtlshash.SHA1) == cfg.InsecureHashes, "wiring_insecure_hash_only_with_insecure_hashes_option")
+	if withCertList {
+		zzsymAssert(has(hc.LocalCertSignatureSchemes, dtlshash.SHA256), "wiring_secure_cert_scheme_kept")
+		zzsymAssert(has(hc.LocalCertSignatureSchemes, dtlshash.SHA1) == cfg.InsecureHashes, "wiring_insecure_cert_hash_only_with_insecure_hashes_option")
+	} else {
+		zzsymAssert(len(hc.LocalCertSignatureSchemes) == 0, "wiring_no_cert_scheme_list_stays_empty")
+	}
+	if cfg.InsecureHashes {
+		zzsymCover("sha1_kept_with_insecure_hashes")
+	} else {
+		zzsymCover("sha1_dropped_without")
+	}
+}
